@@ -11,7 +11,10 @@ LET = "abcdefghkmnpqrstuvwxyz"
 
 
 def nm(rng, pre):
-    return pre + "".join(rng.choice(LET) for _ in range(rng.choice([1, 2, 4])))
+    while True:
+        n = pre + "".join(rng.choice(LET) for _ in range(rng.choice([1, 2, 4])))
+        if n not in ("gt", "lt", "amp", "apos", "quot"):      # never redeclare a predefined entity
+            return n
 
 
 def txt(rng):
